@@ -144,6 +144,7 @@ package bug
 //@   ensures [foreign-create-is-noop] foreign ==> snapshot.id == old(snapshot.id) && snapshot.Title == old(snapshot.Title) && snapshot.Comments == old(snapshot.Comments) && snapshot.Timeline == old(snapshot.Timeline) && snapshot.Actors == old(snapshot.Actors) && snapshot.Participants == old(snapshot.Participants)
 //@   ensures [id-title-author] !foreign ==> snapshot.id == op.Id() && snapshot.Title == op.Title && snapshot.Author == op.Author()
 //@   ensures [one-comment]     !foreign ==> len(snapshot.Comments) == 1 && snapshot.Comments[0].Message == op.Message && snapshot.Comments[0].Author == op.Author() && snapshot.Comments[0].targetId == op.Id() && snapshot.Comments[0].combinedId == entity.CombineIds(op.Id(), op.Id())
+//@   ensures [first-comment-carries-the-files] !foreign ==> len(snapshot.Comments) == 1 && snapshot.Comments[0].Files == op.Files
 //@   ensures [one-item]        !foreign ==> len(snapshot.Timeline) == 1 && typeof(snapshot.Timeline[0]) == type[*CreateTimelineItem] && snapshot.Timeline[0].(*CreateTimelineItem).CommentTimelineItem.Message == op.Message
 //@   ensures [actor]           !foreign ==> exists k int :: { snapshot.Actors[k] } 0 <= k && k < len(snapshot.Actors) && snapshot.Actors[k].Id() == op.Author().Id()
 //@   ensures [participant]     !foreign ==> exists k int :: { snapshot.Participants[k] } 0 <= k && k < len(snapshot.Participants) && snapshot.Participants[k].Id() == op.Author().Id()
@@ -349,6 +350,7 @@ package bug
 //@   assert at `op := NewLabelChangeOperation(author, unixTime, added, removed)` [added-are-new-and-distinct] (forall i int :: { added[i] } forall j int :: { added[j] } 0 <= i && i < j && j < len(added) ==> added[i] != added[j]) && (forall i int :: { added[i] } forall k int :: { snap.Labels[k] } 0 <= i && i < len(added) && 0 <= k && k < len(snap.Labels) ==> snap.Labels[k] != added[i])
 //@   assert at `op := NewLabelChangeOperation(author, unixTime, added, removed)` [removed-are-present-and-distinct] (forall i int :: { removed[i] } forall j int :: { removed[j] } 0 <= i && i < j && j < len(removed) ==> removed[i] != removed[j]) && (forall i int :: { removed[i] } 0 <= i && i < len(removed) ==> (exists k int :: { snap.Labels[k] } 0 <= k && k < len(snap.Labels) && snap.Labels[k] == removed[i]))
 //@   assert at `b.Append(op)` [appends-the-computed-change] op != nil && op.Added == added && op.Removed == removed
+//@   assert at `b.Append(op)` [only-a-validated-operation-is-appended] dag.baseChecked == op && dag.baseCheckedOK
 //@   loop 1
 //@     invariant len(results) == rangeindex + 1 && (results == nil || fresh(results)) && (added == nil || (fresh(added) && !samearray(added, snap.Labels)))
 //@     invariant forall i int :: { added[i] } forall j int :: { added[j] } 0 <= i && i < j && j < len(added) ==> added[i] != added[j]
@@ -361,3 +363,50 @@ package bug
 //@     invariant forall i int :: { removed[i] } 0 <= i && i < len(removed) ==> (exists k int :: { snap.Labels[k] } 0 <= k && k < len(snap.Labels) && snap.Labels[k] == removed[i])
 //@   loop 3
 //@     invariant op != nil && op.Added == added && op.Removed == removed
+
+// SetTitle (C10: the operation records the title it replaces): `was` is the title of the *last* title change among
+// the bug's operations, or the title the bug was created with when there is none.
+//@ func NewSetTitleOp
+//@   props C10
+//@   modifies nothing
+//@   opt trusted_frame
+//@   ensures [carries-both-titles] result != nil && fresh(result) && result.Title == title && result.Was == was
+//@ func SetTitle
+//@   props C10
+//@   assert at `b.Append(op)` [only-a-validated-operation-is-appended] dag.baseChecked == op && dag.baseCheckedOK
+//@   assert at `op := NewSetTitleOp(author, unixTime, title, was)` [was-is-the-title-being-replaced] (lastTitleOp != nil ==> was == lastTitleOp.Title)
+//@   loop 1
+//@     invariant [no-typed-nil] forall k int :: { rangeslice[k] } 0 <= k && k < len(rangeslice) ==> hasvalue(rangeslice[k])
+//@     invariant [none-so-far] lastTitleOp == nil ==> (forall k int :: { rangeslice[k] } 0 <= k && k <= rangeindex ==> typeof(rangeslice[k]) != type[*SetTitleOperation])
+//@     invariant [last-so-far] lastTitleOp != nil ==> (exists k int :: { rangeslice[k] } 0 <= k && k <= rangeindex && typeof(rangeslice[k]) == type[*SetTitleOperation] && rangeslice[k].(*SetTitleOperation) == lastTitleOp && (forall j int :: { rangeslice[j] } k < j && j <= rangeindex ==> typeof(rangeslice[j]) != type[*SetTitleOperation]))
+
+// the constructors hand back a fresh operation (their fields are not claimed here)
+//@ func NewAddCommentOp
+//@ func NewCreateOp
+//@ func NewEditCommentOp
+//@ func NewSetStatusOp
+//@   trusted
+//@   modifies nothing
+//@   ensures result != nil && fresh(result)
+// Every editing helper appends the operation it built only after that very operation passed its Validate (C10, C16,
+// C07: no invalid operation enters a bug through the API, a bridge or the command line).
+//@ func AddComment
+//@   props C10 C16
+//@   opt assume_pre=CombineIds
+//@   assert at `b.Append(op)` [only-a-validated-operation-is-appended] dag.baseChecked == op && dag.baseCheckedOK
+//@ func Create
+//@   props C10 C16
+//@   assert at `b.Append(op)` [only-a-validated-operation-is-appended] dag.baseChecked == op && dag.baseCheckedOK
+//@ func EditComment
+//@   props C10 C16
+//@   opt assume_pre=CombineIds
+//@   assert at `b.Append(op)` [only-a-validated-operation-is-appended] dag.baseChecked == op && dag.baseCheckedOK
+//@ func ForceChangeLabels
+//@   props C10 C16
+//@   assert at `b.Append(op)` [only-a-validated-operation-is-appended] dag.baseChecked == op && dag.baseCheckedOK
+//@ func Open
+//@   props C10 C16
+//@   assert at `b.Append(op)` [only-a-validated-operation-is-appended] dag.baseChecked == op && dag.baseCheckedOK
+//@ func Close
+//@   props C10 C16
+//@   assert at `b.Append(op)` [only-a-validated-operation-is-appended] dag.baseChecked == op && dag.baseCheckedOK
